@@ -434,9 +434,11 @@ func (r ruleData) toAuditRuleData() (*auditRuleData, error) {
 }
 
 func (r *ruleData) fromAuditRuleData(in *auditRuleData) error {
+	if in.FieldCount > maxFields {
+		return fmt.Errorf("too many fields: %d, only %v are supported", in.FieldCount, maxFields)
+	}
 	r.flags = in.Flags
 	r.action = in.Action
-	r.fields = make([]field, in.FieldCount)
 	r.allSyscalls = true
 	for i := 0; r.allSyscalls && i < len(in.Mask)-1; i++ {
 		r.allSyscalls = in.Mask[i] == 0xFFFFFFFF
@@ -464,10 +466,10 @@ func (r *ruleData) fromAuditRuleData(in *auditRuleData) error {
 			objectLevelHighField, pathField, dirField, subjectUserField,
 			subjectRoleField, subjectTypeField, subjectSensitivityField,
 			subjectClearanceField, keyField, exeField:
-			end := in.Values[i] + offset
-			if end > in.BufLen {
+			if in.Values[i] > in.BufLen-offset {
 				return fmt.Errorf("field %d overflows buffer", i)
 			}
+			end := in.Values[i] + offset
 			r.strings = append(r.strings, string(in.Buf[offset:end]))
 			offset = end
 		}
